@@ -234,7 +234,7 @@ def judge_dataset(got, exp, rel=1e-9):
     """engine Dataset vs expected Rel -> list of (kind, key, detail); kind also 'wrong-structure'"""
     diffs = []
     gs, es = engine_structure(got), expected_structure(exp)
-    if [x[:2] for x in gs] != [x[:2] for x in es] or gs != es:
+    if gs != es:
         diffs.append(("wrong-structure", None, (gs, es)))
     rows = harness.dataset_rows(got) or []
     diffs += refbase.compare(rows, exp.rows, exp.ids(), rel=rel)
